@@ -684,13 +684,13 @@ class VarsManager(object):
         dic = {}
         if trainable_only:
             for i in self.trainable_vars:
-                val = self.read(i).numpy()
+                val = self.get(i, val_in_fit=False)  # stored value, no mask
                 # if i in self.bnd_dic:
                 #     val = self.bnd_dic[i].get_y2x(val)
                 dic[i] = val
         else:
             for i in self.variables:
-                val = self.read(i).numpy()
+                val = self.get(i, val_in_fit=False)  # stored value, no mask
                 # if i in self.bnd_dic:
                 #    val = self.bnd_dic[i].get_y2x(val)
                 dic[i] = val
